@@ -20,7 +20,7 @@ Operations (`C17.<op>\t<arg>…`):
   caser <type> <json>   → as `case`, over numerals as Go reads them (Martian.TypesR)
   parseb <hex>          → `some <json>` | `none`   (Martian.JsonBytes.parseTop)
   printb <json>         → hex of the canonical text (printJ)
-  filterb <type> <hex>  → `<hex of returned bytes> <ferr>` | `none`   (Martian.JsonBytes.filterBytes)
+  filterb <type> <hex>  → `<hex of returned bytes> <ferr> nd=<noDupA> cls=<same class as TypesR.filter>` | `none`   (Martian.JsonBytes.filterBytes)
   num <json numeral>    → `<round64 neg:mant:exp2|inf> | <goInt?> | <finite64> | <exact64> | <exact int within int64>`
 -/
 namespace Driver.C17
@@ -170,9 +170,12 @@ def handle (op : String) (args : List String) : Option String :=
     -- `FilterJson` on bytes: `<out bytes hex> <ferr>` / `none` (input is no JSON value)
     let t ← tyOf t
     let b ← bytesOfHex b
-    pure (match Martian.JsonBytes.filterBytes t b with
-      | some (o, e) => hexOfBytes o ++ " " ++ showFErr e
-      | none => "none")
+    -- third field: `noDupA` of the parsed document (hypothesis of filter_bytes_error_class) and, with it,
+    -- whether the tree-level model reports the same error class
+    pure (match Martian.JsonBytes.filterBytes t b, Martian.JsonBytes.parseTopA b with
+      | some (o, e), some a => hexOfBytes o ++ " " ++ showFErr e ++ " nd=" ++ boolStr (Martian.JsonBytes.noDupA a) ++
+          " cls=" ++ boolStr (e == (Martian.TypesR.filter t a.toJ).2)
+      | _, _ => "none")
   | "assign", [d, s] => do
     let d ← tyOf d
     let s ← tyOf s
